@@ -1149,6 +1149,14 @@ def slice_split_last(I, a, n):
     return SOME([Ref(s.items, s.hi - 1), SliceRef(s.items, s.lo, s.hi - 1)])
 
 
+@model(r"^std::slice::from_ref$|^core::slice::from_ref$|^std::slice::from_mut$")
+def slice_from_ref(I, a, n):
+    r = a[0]
+    if isinstance(r, Ref) and isinstance(r.c, list) and isinstance(r.k, int):
+        return SliceRef(r.c, r.k, r.k + 1)
+    return SliceRef([deref(r)], 0, 1)
+
+
 @model(r"^core::slice::split$")
 def slice_split(I, a, n):
     """[T]::split(pred): sub-slices separated by the elements matching pred"""
